@@ -180,11 +180,17 @@ def run(tier, v):
     return "model_checking", cov, [
         "alphabet: statuses {200,201,204,299,301,304,400,404,418,429,500,503,599}, 1xx preface, empty / 10 MB / truncated / "
         "bad-chunk bodies, malformed status line / header / 12 MB header, close before / during, refused, timeout, non-JSON, "
-        "non-HTML, short / absent header; gRPC: codes 0..16, 1 MB / 6 MB replies, deadline, killed connection",
+        "non-HTML, short / absent header; unsolicited 100 Continue, more 1xx than the client accepts, 101 Switching Protocols, chunk sizes "
+        "that overflow / are negative / lack CRLF / end early, gzip Content-Encoding on garbage (with and without a decompressing client), "
+        "a 1.2 MB header block in 20 000 lines, one-byte writes; $.list empty / one element / string / null / object flowing into a later "
+        "step's preprocessor under every index form; connect tunnel refused / 407 / garbage / extra bytes; gRPC: codes 0..16 and 17, 42, "
+        "2^31-1, 1 MB / 6 MB replies, deadline, killed connection (before / after the headers), empty and undecodable reply messages",
         "each ammo names its letter; letters with effects beyond their own request (timeout, refused, killed gRPC connection, "
         "slow gRPC) only in single-letter runs; gRPC status coding only checked as 200 / >= 400 (C10, C20 own the table)",
         "http2 guns: well-formed h2 responses, handshake-level letters (alert / close / reset on every other handshake, "
-        "handshake timeout) and the documented fatal non-h2 target; https = http gun with ssl",
+        "handshake timeout), frame-level letters against a target written on http2.Framer (GOAWAY + close, RST_STREAM instead of / in the "
+        "middle of a response, DATA on stream 0, a block that is not HPACK, a flood of SETTINGS and PINGs; single-letter runs and mixtures "
+        "on shared connections) and the documented fatal non-h2 target; https = http gun with ssl",
         "trusted: targets and recorder (harness/internal/scentarget, harness/cmd/vdrive/responses.go)"]
 
 
@@ -209,5 +215,6 @@ MANIFEST = dict(
          "TLC checks the loop for every interleaving of letters, and every letter x gun kind x postprocessor set is "
          "provoked on the real engine, so a panic or a lost/extra sample in any path shows as a rejected run.",
     note="2 instances x 30 ammo per run; byte-level fuzz of responses is not attempted (letters are representatives); "
-         "gRPC status table not re-derived; stalled bodies / 101 outside the alphabet",
+         "gRPC status table not re-derived; the instance loop is explored over one representative letter per outcome class; "
+         "a peer that stalls in the middle of a body is outside the alphabet (no body timeout option: the instance would block, not crash)",
 )
